@@ -47,6 +47,8 @@ def configs(tier):
     for nd in ((2, 3) if q else (2, 3, 4)):
         for n in (1, 2):
             out.append(("qgauss_data", nd, n))
+    out.append(("qgauss_data", -4, 2))
+    out.append(("qgauss_data", -4, 1))
     out.append(("qgauss_cache",))
     out.append(("qgauss_nonpts",))
     for nx in (1, 2, 3):
@@ -224,7 +226,17 @@ def h_qgauss(cx, cfg):
         return
     if what == "qgauss_data":
         _, nd, n = cfg
-        xv = [cx.real("x%d" % i) for i in range(nd)]
+        import fractions
+        if nd < 0:
+            # a fixed uneven grid at a scale s chosen by the solver among tiny, ordinary and huge: the table
+            # integrator must not depend on the units of x
+            nd = -nd
+            base = [fractions.Fraction(0), fractions.Fraction(1), fractions.Fraction(5), fractions.Fraction(7)][:nd]
+            sc = [fractions.Fraction(1, 10 ** 9), fractions.Fraction(1), fractions.Fraction(10 ** 6), fractions.Fraction(1, 10 ** 12)][cx.choice("scale", 4)]
+            off = [fractions.Fraction(0), fractions.Fraction(5, 2)][cx.choice("offset", 2)]
+            xv = [off + b * sc for b in base]
+        else:
+            xv = [cx.real("x%d" % i) for i in range(nd)]
         yv = [cx.real("y%d" % i) for i in range(nd)]
         for i in range(nd - 1):
             cx.assume(xv[i] < xv[i + 1])
@@ -416,13 +428,19 @@ def replay(cand):
         return {"reproduced": True, "key": "nonpts", "what": "integrate_func ran without npts"}
     if what == "qgauss_data":
         _, nd, n = cfg
-        xv = np.array([mf("x%d" % i, float(i)) for i in range(nd)])
+        if nd < 0:
+            nd = -nd
+            sc = [1e-9, 1.0, 1e6, 1e-12][int(mdl.get("scale", 0) or 0)]
+            off = [0.0, 2.5][int(mdl.get("offset", 0) or 0)]
+            xv = off + np.array([0.0, 1.0, 5.0, 7.0][:nd]) * sc
+        else:
+            xv = np.array([mf("x%d" % i, float(i)) for i in range(nd)])
         yv = np.array([mf("y%d" % i, float(i * i)) for i in range(nd)])
         if not (np.diff(xv) > 0).all():
             xv = np.arange(nd, dtype=float)
         want = direct(n, xv[0], xv[-1], lambda t: np.interp(t, xv, yv))
         for name, got in (("QGauss.integrate", iu.QGauss(n).integrate(xv, yv)), ("qgauss", iu.qgauss(xv, yv, n))):
-            if not np.isclose(got, want, rtol=1e-8, atol=1e-10):
+            if not np.isclose(got, want, rtol=1e-8, atol=1e-10 * abs(xv[-1] - xv[0]) * max(1.0, float(np.abs(yv).max()))):
                 return {"reproduced": True, "key": "integrate_data", "what": "%s(x=%r, y=%r, npts=%d) = %r, rule on the interpolated data gives %r" % (name, xv.tolist(), yv.tolist(), n, got, want)}
         return no
     if what == "qgauss_cache":
